@@ -47,4 +47,85 @@ theorem C03_phase_vs_slot (base : Nat) (h : History) (i : Nat) (c : Cfg) (p : Po
   apply (baseAll base h i c p hc hp).1 t tk ht
   rcases hph with h | h | h <;> simp [NYR, h]
 
+/-! ### callbacks: exactly once, in order, at the right moment
+
+`nEC` / `nCC` are ghost counters of a task: how often the wrapper entered the end / the cancel callback (they are
+incremented by the very step that writes the `endCb` / `cancelCb` entry into the event log, `Pool.cbBegin`).
+`wasCancelled` records that the coroutine ended by cancellation and the cancellation was registered
+(`except CancelledError` ran `_task_cancellation`).  All statements hold in every pool after **every** history. -/
+
+/-- **at most once** — neither callback is ever entered twice for one task -/
+theorem C03_callbacks_at_most_once (base : Nat) (h : History) (i : Nat) (c : Cfg) (p : Pool)
+    (hc : ((World.init base).run h).cfgs[i]? = some c) (hp : ((World.init base).run h).pools[i]? = some p)
+    (t : Nat) (tk : PTask) (ht : p.tasks[t]? = some tk) : tk.nEC ≤ 1 ∧ tk.nCC ≤ 1 :=
+  ⟨(lifeAll base h i c p hc hp t tk ht).e1, (lifeAll base h i c p hc hp t tk ht).c1⟩
+
+/-- **the end callback runs when the task already counts as ended**: it is entered only after the slot was handed
+back (which the same step does right after filing the id as ended), never for a task that still counts as running or
+cancelled -/
+theorem C03_end_cb_after_ending (base : Nat) (h : History) (i : Nat) (c : Cfg) (p : Pool)
+    (hc : ((World.init base).run h).cfgs[i]? = some c) (hp : ((World.init base).run h).pools[i]? = some p)
+    (t : Nat) (tk : PTask) (ht : p.tasks[t]? = some tk) (hn : tk.nEC = 1) :
+    tk.released = true ∧ t ∉ p.running ∧ t ∉ p.cancelledR := by
+  have hl := lifeAll base h i c p hc hp t tk ht
+  have hrel : tk.released = true := by
+    cases hr : tk.released with
+    | true => rfl
+    | false => have := hl.e0 hr; have : tk.nEC = 0 := this; omega
+  obtain ⟨_, hreg⟩ := baseAll base h i c p hc hp
+  refine ⟨hrel, fun hm => ?_, fun hm => ?_⟩
+  · obtain ⟨tk', a, b⟩ := hreg.run t hm; rw [ht] at a; cases a; rw [hrel] at b; cases b
+  · obtain ⟨tk', a, b, _⟩ := hreg.can t hm; rw [ht] at a; cases a; rw [hrel] at b; cases b
+
+/-- **the cancel callback runs if and only if the coroutine ended by cancellation** (only-if part, and never for a
+task that is still in or before its worker); **and before the end callback**: once the end callback has been entered
+for a cancelled task with a cancel callback, the cancel callback has been entered already -/
+theorem C03_cancel_cb_only_if_cancelled_and_first (base : Nat) (h : History) (i : Nat) (c : Cfg) (p : Pool)
+    (hc : ((World.init base).run h).cfgs[i]? = some c) (hp : ((World.init base).run h).pools[i]? = some p)
+    (t : Nat) (tk : PTask) (ht : p.tasks[t]? = some tk) :
+    (tk.nCC = 1 → tk.wasCancelled = true) ∧
+    ((tk.phase = .created ∨ tk.phase = .inWorker) → tk.nCC = 0 ∧ tk.nEC = 0) ∧
+    (tk.nEC = 1 → tk.wasCancelled = true → tk.cancelCb ≠ .none → tk.nCC = 1) ∧
+    (tk.cancelCb = .none → tk.nCC = 0) ∧ (tk.endCb = .none → tk.nEC = 0) := by
+  have hl := lifeAll base h i c p hc hp t tk ht
+  obtain ⟨hph, _⟩ := baseAll base h i c p hc hp
+  refine ⟨hl.cw, fun hx => ⟨(hl.c0 hx).1, hl.e0 (hph t tk ht (by rcases hx with e | e <;> simp [NYR, e]))⟩, hl.ord, hl.cn, hl.en⟩
+
+/-- **exactly once.** When a task has finished — and nothing was `lost` (no `KeyError` in a wrapper, DESIGN §4.3) —
+its end callback was entered exactly once if it has one (and not at all otherwise); its cancel callback was entered
+exactly once if it has one and the coroutine ended by cancellation, and not at all otherwise -/
+theorem C03_exactly_once (base : Nat) (h : History) (i : Nat) (c : Cfg) (p : Pool)
+    (hc : ((World.init base).run h).cfgs[i]? = some c) (hp : ((World.init base).run h).pools[i]? = some p)
+    (hlost : p.lost = false) (t : Nat) (tk : PTask) (ht : p.tasks[t]? = some tk) (hf : tk.phase = .finished) :
+    tk.nEC = (if tk.endCb = .none then 0 else 1) ∧
+    (tk.wasCancelled = true → tk.nCC = (if tk.cancelCb = .none then 0 else 1)) ∧
+    (tk.wasCancelled = false → tk.nCC = 0) := by
+  have hl := lifeAll base h i c p hc hp t tk ht
+  rw [hlost] at hl
+  obtain ⟨_, a, b, c'⟩ := hl.fin hf rfl
+  exact ⟨a, b, c'⟩
+
+/-- **callbacks are run to completion**: a task suspended inside a coroutine callback has entered that callback
+exactly once and is still counted accordingly — cancelled (slot held) in the cancel callback, ended (slot handed
+back) in the end callback -/
+theorem C03_suspended_in_callback (base : Nat) (h : History) (i : Nat) (c : Cfg) (p : Pool)
+    (hc : ((World.init base).run h).cfgs[i]? = some c) (hp : ((World.init base).run h).pools[i]? = some p)
+    (t : Nat) (tk : PTask) (ht : p.tasks[t]? = some tk) :
+    (tk.phase = .inCancelCb → tk.nCC = 1 ∧ tk.cancelCb = .coro ∧ tk.released = false) ∧
+    (tk.phase = .inEndCb → tk.nEC = 1 ∧ tk.endCb = .coro ∧ tk.released = true) := by
+  have hl := lifeAll base h i c p hc hp t tk ht
+  obtain ⟨hph, _⟩ := baseAll base h i c p hc hp
+  exact ⟨fun hx => ⟨(hl.cc hx).1, (hl.cc hx).2, hph t tk ht (by simp [NYR, hx])⟩, hl.ec⟩
+
+/-! Non-vacuity: a cancelled task with a plain cancel callback and a plain end callback: both entered once, in order. -/
+def C03_spec : SpawnSpec :=
+  { ws := { mode := .gated, swallow := false }, endCb := .plain, cancelCb := .plain, badCall := false, isCoro := true, hooks := {} }
+
+def C03_demo : History :=
+  [.mkpool (some 1) none none, .on 0 [] (.apply 1 none C03_spec), .run 0 [], .run 0 [],
+   .on 0 [] (.cancel [0]), .run 0 []]
+
+example : (((World.init 0).run C03_demo).pools.map fun p => p.tasks.map fun k => (k.phase, k.nCC, k.nEC, k.wasCancelled)) =
+    [[(Phase.finished, 1, 1, true)]] := by decide +kernel
+
 end Taskpool
